@@ -106,6 +106,16 @@ def check(run):
                 lines.append("rdc %s %s %s" % (kind, data.hex(), ",".join(map(str, chunk))))
                 metas.append((data, pre, blocks, hdr_end, ends, chunk))
     answers = G.run_rd(lines)
+    # the schema model of CdnsReader (header + read_block loop, Model.File.readBlock – the subject of C05.truncated_blocks) on the same cuts
+    mlines = ["blkc " + " ".join(l.split()[2:]) for l in lines]
+    manswers = G.run_driver(mlines) if run.driver_ok else [None] * len(lines)
+    for (data, pre, blocks, hdr_end, ends, chunk), ans, mans in zip(metas, answers, manswers):
+        if mans is not None and ans is not None and not ans.startswith("CRASH"):
+            for n, g, m in zip(chunk, ans.split(" @@ "), mans.split(" @@ ")):
+                run.count("file-level cuts: schema model compared")
+                if m[2:] != g[2:] and len(run.model_fail) < 5:
+                    run.model_fail.append(("blkc %s %d" % (data.hex()[:3000], n), {"correspondence": "Model.File.readBlock loop vs CdnsReader on a truncated file",
+                                           "cut": n, "file bytes": len(data), "model": m[:600], "library": g[:600]}))
     for (data, pre, blocks, hdr_end, ends, chunk), ans in zip(metas, answers):
         if ans is None or ans.startswith("CRASH"):
             if "cut:crash" not in seen:
